@@ -58,7 +58,7 @@ PLANS = {
     },
     "C04": {
         "rule": "sim engine dominated by resets/drops at random instants, low concurrency limits, pushes on several parents, near-exhausted stream ids; RFC 9113 5.1/6 grammar automaton over each endpoint's own output. Non-trivial iff a CONTINUATION was used, a reset/abort raced with queued frames, ids neared exhaustion or a stream was non-cooperative; distinct by behaviour fingerprint.",
-        "quick": [sim("lifecycle", 10000), sim("resets", 3000), sim("concurrency", 3000)],
+        "quick": [sim("lifecycle", 20000), sim("resets", 3000), sim("concurrency", 3000)],
         "thorough": [sim("lifecycle", 240000), sim("resets", 80000), sim("concurrency", 80000)],
         "min_nontrivial": {"quick": 500, "thorough": 5000},
         "require_stats": {"quick": {"client.ids_near_exhaustion": 5, "server.push_promises": 100, "send_reset_calls": 200}, "thorough": {}},
